@@ -153,10 +153,14 @@ pub struct Case {
     /// authorisation (whoever relies on the token to authenticate the payer authenticates nobody)
     #[serde(default)]
     pub lax_gas_token: bool,
+    /// (transfer_from) the recipient is the holder itself: a delegated move of the holder's funds "to the holder" is
+    /// still a delegated spend and needs the allowance
+    #[serde(default)]
+    pub recipient_is_holder: bool,
 }
 
 fn blank() -> Case {
-    Case { ep: EPS[0], principal: PRINCIPALS[0], with_allowance_for_counterparty: false, amount: 1, without_grantor_allowance: false, named_is_token_owner: false, grantor_allowance_expired: false, windows_open: false, negative_amount: false, sweep: None, grantor_allowance_revoked: 0, lax_gas_token: false }
+    Case { ep: EPS[0], principal: PRINCIPALS[0], with_allowance_for_counterparty: false, amount: 1, without_grantor_allowance: false, named_is_token_owner: false, grantor_allowance_expired: false, windows_open: false, negative_amount: false, sweep: None, grantor_allowance_revoked: 0, lax_gas_token: false, recipient_is_holder: false }
 }
 
 struct W<'a> {
@@ -172,6 +176,7 @@ struct W<'a> {
     owner_of_called: Address,
     /// the token stated as gas / fee token
     gas_token: Address,
+    recipient_is_holder: bool,
 }
 
 const ITS_SALT: [u8; 32] = [5; 32];
@@ -316,7 +321,7 @@ fn build<'a>(case: &Case, named_is_probe: bool) -> W<'a> {
     // only the payer, paying in a token without value debits nobody, which the statement does not forbid)
     let lax = case.lax_gas_token && matches!(case.ep, Ep::ItsTransfer | Ep::ItsTransferCanonical | Ep::ItsDeployRemote | Ep::ExampleSend);
     let gas_token = if lax { env.register(crate::probes::LaxToken, ()) } else { s.asset.clone() };
-    W { s, named, counterparty, probe, target, example, its_token, its_token_id: id, asset2, owner_of_called, gas_token }
+    W { s, named, counterparty, probe, target, example, its_token, its_token_id: id, asset2, owner_of_called, gas_token, recipient_is_holder: case.recipient_is_holder }
 }
 
 /// (contract, function, args) of the studied call; `alt` = second argument list
@@ -338,7 +343,10 @@ fn invocation_with(w: &W, ep: Ep, amount: i128, alt: bool, n: Address, c: Addres
     match ep {
         Ep::TokApprove => (s.token.address.clone(), "approve", v((n, c, a, exp).into_val(env))),
         Ep::TokTransfer => (s.token.address.clone(), "transfer", v((n, c, a).into_val(env))),
-        Ep::TokTransferFrom => (s.token.address.clone(), "transfer_from", v((n, c, s.pool[STRANGER].clone(), a).into_val(env))),
+        Ep::TokTransferFrom => {
+            let to = if w.recipient_is_holder { c.clone() } else { s.pool[STRANGER].clone() };
+            (s.token.address.clone(), "transfer_from", v((n, c, to, a).into_val(env)))
+        }
         Ep::TokBurn => (s.token.address.clone(), "burn", v((n, a).into_val(env))),
         Ep::TokBurnFrom => (s.token.address.clone(), "burn_from", v((n, c, a).into_val(env))),
         Ep::TokMintFrom => (s.token.address.clone(), "mint_from", v((n, c, a).into_val(env))),
@@ -524,6 +532,7 @@ impl Property for C07 {
                 sweep: None,
                 grantor_allowance_revoked: if without_grantor_allowance && amount % 2 == 1 { 1 + amount / 2 % 8 } else { 0 },
                 lax_gas_token: amount % 3 == 1,
+                recipient_is_holder: amount % 4 == 2,
             })
             .boxed();
         match crate::sweep::strategy(crate::sweep::Rule::Spend) {
@@ -536,30 +545,33 @@ impl Property for C07 {
         for ep in EPS {
             for p in PRINCIPALS {
                 for al in [false, true] {
-                    v.push(Case { ep, principal: p, with_allowance_for_counterparty: al, amount: 3, without_grantor_allowance: false, named_is_token_owner: false, grantor_allowance_expired: false , windows_open: false, negative_amount: false, sweep: None, grantor_allowance_revoked: 0, lax_gas_token: false });
+                    v.push(Case { ep, principal: p, with_allowance_for_counterparty: al, amount: 3, without_grantor_allowance: false, named_is_token_owner: false, grantor_allowance_expired: false , windows_open: false, negative_amount: false, sweep: None, grantor_allowance_revoked: 0, lax_gas_token: false, recipient_is_holder: false });
                 }
                 if matches!(p, Principal::Nobody | Principal::Stranger | Principal::AllAddressesAliasCalledContract | Principal::ContractNamingOther) {
-                    v.push(Case { ep, principal: p, with_allowance_for_counterparty: false, amount: 3, without_grantor_allowance: false, named_is_token_owner: false, grantor_allowance_expired: false, windows_open: true, negative_amount: false, sweep: None, grantor_allowance_revoked: 0, lax_gas_token: false });
+                    v.push(Case { ep, principal: p, with_allowance_for_counterparty: false, amount: 3, without_grantor_allowance: false, named_is_token_owner: false, grantor_allowance_expired: false, windows_open: true, negative_amount: false, sweep: None, grantor_allowance_revoked: 0, lax_gas_token: false, recipient_is_holder: false });
                 }
                 if matches!(p, Principal::Named | Principal::Counterparty) && ep.has_amount() {
-                    v.push(Case { ep, principal: p, with_allowance_for_counterparty: true, amount: 3, without_grantor_allowance: false, named_is_token_owner: false, grantor_allowance_expired: false, windows_open: false, negative_amount: true, sweep: None, grantor_allowance_revoked: 0, lax_gas_token: false });
-                    v.push(Case { ep, principal: p, with_allowance_for_counterparty: true, amount: 3, without_grantor_allowance: false, named_is_token_owner: true, grantor_allowance_expired: false, windows_open: false, negative_amount: true, sweep: None, grantor_allowance_revoked: 0, lax_gas_token: false });
+                    v.push(Case { ep, principal: p, with_allowance_for_counterparty: true, amount: 3, without_grantor_allowance: false, named_is_token_owner: false, grantor_allowance_expired: false, windows_open: false, negative_amount: true, sweep: None, grantor_allowance_revoked: 0, lax_gas_token: false, recipient_is_holder: false });
+                    v.push(Case { ep, principal: p, with_allowance_for_counterparty: true, amount: 3, without_grantor_allowance: false, named_is_token_owner: true, grantor_allowance_expired: false, windows_open: false, negative_amount: true, sweep: None, grantor_allowance_revoked: 0, lax_gas_token: false, recipient_is_holder: false });
                 }
                 if matches!(ep, Ep::ItsDeployRemote | Ep::ItsTransfer | Ep::ItsTransferCanonical | Ep::ExampleSend) {
-                    v.push(Case { ep, principal: p, with_allowance_for_counterparty: false, amount: 3, without_grantor_allowance: false, named_is_token_owner: false, grantor_allowance_expired: false, windows_open: false, negative_amount: false, sweep: None, grantor_allowance_revoked: 0, lax_gas_token: true });
+                    v.push(Case { ep, principal: p, with_allowance_for_counterparty: false, amount: 3, without_grantor_allowance: false, named_is_token_owner: false, grantor_allowance_expired: false, windows_open: false, negative_amount: false, sweep: None, grantor_allowance_revoked: 0, lax_gas_token: true, recipient_is_holder: false });
                 }
                 // the named address is the token owner / a minter
-                v.push(Case { ep, principal: p, with_allowance_for_counterparty: false, amount: 3, without_grantor_allowance: false, named_is_token_owner: true, grantor_allowance_expired: false , windows_open: false, negative_amount: false, sweep: None, grantor_allowance_revoked: 0, lax_gas_token: false });
+                v.push(Case { ep, principal: p, with_allowance_for_counterparty: false, amount: 3, without_grantor_allowance: false, named_is_token_owner: true, grantor_allowance_expired: false , windows_open: false, negative_amount: false, sweep: None, grantor_allowance_revoked: 0, lax_gas_token: false, recipient_is_holder: false });
                 if matches!(ep, Ep::TokTransferFrom | Ep::TokBurnFrom) {
                     // no allowance from the grantor: nobody's authorisation is enough
                     for owner in [false, true] {
                         for expired in [false, true] {
                             // amount 500 = the whole (expired) allowance; 3 = part of it
                             for amount in [3u8, 250] {
-                                v.push(Case { ep, principal: p, with_allowance_for_counterparty: false, amount, without_grantor_allowance: true, named_is_token_owner: owner, grantor_allowance_expired: expired , windows_open: false, negative_amount: false, sweep: None, grantor_allowance_revoked: 0, lax_gas_token: false });
+                                v.push(Case { ep, principal: p, with_allowance_for_counterparty: false, amount, without_grantor_allowance: true, named_is_token_owner: owner, grantor_allowance_expired: expired , windows_open: false, negative_amount: false, sweep: None, grantor_allowance_revoked: 0, lax_gas_token: false, recipient_is_holder: false });
+                                if ep == Ep::TokTransferFrom {
+                                    v.push(Case { ep, principal: p, with_allowance_for_counterparty: false, amount, without_grantor_allowance: true, named_is_token_owner: owner, grantor_allowance_expired: expired, windows_open: false, negative_amount: false, sweep: None, grantor_allowance_revoked: 0, lax_gas_token: false, recipient_is_holder: true });
+                                }
                                 if !expired {
                                     for r in 1..9u8 {
-                                        v.push(Case { ep, principal: p, with_allowance_for_counterparty: false, amount, without_grantor_allowance: true, named_is_token_owner: owner, grantor_allowance_expired: false, windows_open: false, negative_amount: false, sweep: None, grantor_allowance_revoked: r, lax_gas_token: false });
+                                        v.push(Case { ep, principal: p, with_allowance_for_counterparty: false, amount, without_grantor_allowance: true, named_is_token_owner: owner, grantor_allowance_expired: false, windows_open: false, negative_amount: false, sweep: None, grantor_allowance_revoked: r, lax_gas_token: false, recipient_is_holder: false });
                                     }
                                 }
                             }
